@@ -32,7 +32,7 @@ RULE = ('two-call histories on one parameter file (first call succeeds or fails 
         'Distinct: (entry point, configuration, k, exception class).')
 ASSUMPTIONS = ['assignments/deletions on os.environ are not themselves fault points (if restoring cannot be done, nothing can restore); look-ups in os.environ are not fault points either (their answer is determined by the enumerated initial state); pure str/list/dict methods and len/isinstance/... are not fault points; calls between functions of the module under test are not fault points themselves (their outgoing calls are)',
                'collaborators are stubs; faults inside a collaborator after a partial side effect of its own are outside the bound',
-               'exception classes injected: a RuntimeError subclass (quick) plus KeyError, OSError, ValueError (thorough)']
+               'exception classes injected: a RuntimeError subclass and KeyboardInterrupt (quick) plus KeyError, OSError, ValueError, SystemExit (thorough)']
 MIN_OUTCOMES = 3
 
 
@@ -42,7 +42,8 @@ class InjectedFault(RuntimeError):
 
 PURE_OWNERS = (str, bytes, list, dict, tuple, set, frozenset, int, float)
 PURE_BUILTINS = (len, isinstance, issubclass, min, max, id, hasattr, getattr, iter, next)
-EXC = {'InjectedFault': InjectedFault, 'KeyError': KeyError, 'OSError': OSError, 'ValueError': ValueError}
+EXC = {'InjectedFault': InjectedFault, 'KeyError': KeyError, 'OSError': OSError, 'ValueError': ValueError,
+       'KeyboardInterrupt': KeyboardInterrupt, 'SystemExit': SystemExit}
 
 
 # ------------------------------------------------------------------ fault injector
@@ -409,8 +410,17 @@ def one_run(cfg, k, excname, d):
 
 def tasks(tier):
     cfgs = ws_configs() + ti_configs(tier)
-    excs = ['InjectedFault'] if tier == 'quick' else ['InjectedFault', 'KeyError', 'OSError', 'ValueError']
-    return [{'cfg': c, 'excs': excs} for c in cfgs]
+    out = []
+    for c in cfgs:
+        if tier == 'quick':
+            # a non-Exception fault (Ctrl-C) for window_score and the plain template configurations
+            plain = c['ep'] == 'window_score' or (c.get('object') == 'gal' and c.get('defect') == 'none' and not c.get('flux')
+                                                  and c.get('dump') == 'absent' and not c.get('first') and not c.get('natural'))
+            excs = ['InjectedFault', 'KeyboardInterrupt'] if plain else ['InjectedFault']
+        else:
+            excs = ['InjectedFault', 'KeyError', 'OSError', 'ValueError', 'KeyboardInterrupt', 'SystemExit']
+        out.append({'cfg': c, 'excs': excs})
+    return out
 
 
 _warm = set()
